@@ -10,6 +10,7 @@ import ScyllaVerif.Model.Pool
 import ScyllaVerif.Proofs.Pool
 import ScyllaVerif.Model.Routing
 import ScyllaVerif.Proofs.PoolRefiller
+import ScyllaVerif.Props.C02
 /-!
 # C10 — when a connection dies every request in flight on it fails promptly; none hangs
 
@@ -565,15 +566,96 @@ theorem keepalive_no_response_breaks (k : KaSt) (h : Inv k.c) (r deadline : Nat)
       inv_broken_waiter _ ((h.step _).step _) (break_sets_broken _ _) r' hw⟩
     exact break_cause hbc _
 
+/-- The keep-alive request came back with an ERROR (e.g. `UnableToAllocStreamId`: the probe goes through the same
+stream-id allocator as every request, and all 32768 ids may be taken by requests the silent peer never answers):
+the keepaliver ends the router with `KeepaliveRequestError` at once — it does not count the round as fine — and
+nobody is left waiting. -/
+theorem keepalive_request_error_breaks (k : KaSt) (h : Inv k.c) (hb : k.c.broken = false) (r deadline : Nat)
+    (hp : k.pending = some (r, deadline)) (e : ErrKind)
+    (he : getCaller k.c.callers r = some (.delivered (.err e))) :
+    (kaTurn k).c.broken = true ∧ (kaTurn k).c.cause = some .keepaliveRequestError ∧
+    ∀ r', getCaller (kaTurn k).c.callers r' = some .waiting → r' ∈ (kaTurn k).c.permits := by
+  have ec : (kaTurn k).c = step (step k.c (.recv r)) (.break_ .keepaliveRequestError) := by
+    unfold kaTurn
+    simp only [hb, Bool.false_eq_true, if_false, hp, he]
+  have hbc : (step k.c (.recv r)).broken = false := by
+    simp only [step]
+    split <;> exact hb
+  rw [ec]
+  exact ⟨break_sets_broken _ _, break_cause hbc _, fun r' hw =>
+    inv_broken_waiter _ ((h.step _).step _) (break_sets_broken _ _) r' hw⟩
+
+/-- SILENCE ALWAYS BREAKS: a probe is in flight, its deadline has passed, and the keepaliver's request does not hold
+a RESPONSE (whatever else happened to it: still waiting, or failed with any error, in particular
+`UnableToAllocStreamId` when every stream id is held by an unanswered request). Then the keepaliver's turn ends the
+router and nobody is left waiting — whatever the number of requests in flight. -/
+theorem keepalive_silence_breaks (k : KaSt) (h : Inv k.c) (r deadline : Nat)
+    (hp : k.pending = some (r, deadline)) (ht : k.clock ≥ deadline)
+    (hnr : ∀ f, getCaller k.c.callers r ≠ some (.delivered (.frame f))) :
+    (kaTurn k).c.broken = true ∧
+    ∀ r', getCaller (kaTurn k).c.callers r' = some .waiting → r' ∈ (kaTurn k).c.permits := by
+  cases hb : k.c.broken with
+  | true =>
+    have e : kaTurn k = k := by unfold kaTurn; simp [hb]
+    rw [e]; exact ⟨hb, fun r' hw => inv_broken_waiter _ h hb r' hw⟩
+  | false =>
+    by_cases herr : ∃ e, getCaller k.c.callers r = some (.delivered (.err e))
+    · obtain ⟨e, he⟩ := herr
+      have := keepalive_request_error_breaks k h hb r deadline hp e he
+      exact ⟨this.1, this.2.2⟩
+    · have hno : ∀ o, getCaller k.c.callers r ≠ some (.delivered o) := by
+        intro o ho
+        cases o with
+        | frame f => exact hnr f ho
+        | err e => exact herr ⟨e, ho⟩
+      have := keepalive_no_response_breaks k h r deadline hp ht hno
+      exact ⟨this.1, this.2.2⟩
+
+/-- ALL 32768 STREAM IDS TAKEN: a tick is due (or a hint given), the writer is idle, and no stream id is free
+(every one is held by a request the peer has not answered). The probe is submitted like any request, the writer
+cannot allocate a stream id for it and answers it with `UnableToAllocStreamId`, and the keepaliver's next turn ends
+the router with `KeepaliveRequestError`: every one of the 32768 callers gets its error, none waits for a timeout
+that could never be armed. -/
+theorem keepalive_exhausted_ids_breaks (k : KaSt) (h : Inv k.c) (hb : k.c.broken = false) (hp : k.pending = none)
+    (ht : k.hint = true ∨ k.clock ≥ k.next) (hfull : k.full = false) (hq : k.c.queue = [])
+    (hex : ∀ id, id < 32768 → k.c.map.ids.isUsed id = true) :
+    let k1 := kaTurn k
+    let k2 := kaTurn { k1 with c := step k1.c .writerTake }
+    k2.c.broken = true ∧ k2.c.cause = some .keepaliveRequestError ∧
+    ∀ r', getCaller k2.c.callers r' = some .waiting → r' ∈ k2.c.permits := by
+  intro k1 k2
+  obtain ⟨hc, hpend, _, _, _⟩ := keepalive_tick k hb hp ht
+  have hc1 : k1.c = step k.c .submit := by show (kaTurn k).c = _; rw [hc, hfull]; rfl
+  have hsub : step k.c .submit =
+      { k.c with nextReq := k.c.nextReq + 1, queue := k.c.queue ++ [k.c.nextReq],
+                 callers := setCaller k.c.callers k.c.nextReq .waiting } := by
+    simp only [step, hb, Bool.false_eq_true, if_false]
+  have hnone : (step k.c .submit).map.allocate k.c.nextReq = none := by
+    rw [hsub]
+    exact hallocate_none.mpr ((sallocate_none h.map.len).mpr hex)
+  have hb1 : (step k.c .submit).broken = false := by rw [hsub]; exact hb
+  have hq1 : (step k.c .submit).queue = k.c.nextReq :: [] := by rw [hsub, hq]; rfl
+  have hw1 : getCaller (step k.c .submit).callers k.c.nextReq = some .waiting := by
+    rw [hsub]; simp [getCaller_setCaller]
+  have hdel := ScyllaVerif.Props.C02.exhausted_caller_gets_error (step k.c .submit) k.c.nextReq [] hb1 hq1 hnone hw1
+  have hb2 : (step (step k.c .submit) .writerTake).broken = false := by
+    rw [ScyllaVerif.Props.C02.exhaustion (step k.c .submit) k.c.nextReq [] hb1 hq1 hnone]; exact hb1
+  have hinv2 : Inv (step (step k.c .submit) .writerTake) := (h.step _).step _
+  have := keepalive_request_error_breaks { k1 with c := step k1.c .writerTake } (by rw [hc1]; exact hinv2)
+    (by rw [hc1]; exact hb2) k.c.nextReq (k.clock + k.timeout) hpend .unableToAllocStreamId
+    (by rw [hc1]; exact hdel)
+  exact this
+
 /-- "Stops answering keep-alives": a tick is due (or a hint was given); whatever happens afterwards (`evs`: any events of callers,
-writer, orphaner, reader and server), if no outcome reaches the keepaliver's request and at least `timeout` ms
+writer, orphaner, reader and server), if no RESPONSE reaches the keepaliver's request (it may stay unanswered, or fail — e.g. with
+`UnableToAllocStreamId` when all 32768 stream ids are held by unanswered requests) and at least `timeout` ms
 pass, the keepaliver's next turn ends the router and nobody is left waiting. Since a tick is due at most
 `interval` after the previous one (`keepalive_tick`), a peer that falls silent is detected within
 `interval + timeout` of virtual time. -/
 theorem keepalive_stall_breaks (k : KaSt) (h : Inv k.c) (hp : k.pending = none)
     (ht : k.hint = true ∨ k.clock ≥ k.next)
     (evs : List Ev) (dt : Nat) (hdt : dt ≥ k.timeout)
-    (hnr : ∀ o, getCaller (run (kaTurn k).c evs).callers k.c.nextReq ≠ some (.delivered o)) :
+    (hnr : ∀ f, getCaller (run (kaTurn k).c evs).callers k.c.nextReq ≠ some (.delivered (.frame f))) :
     let k1 := kaTurn k
     let k2 := kaTurn { k1 with c := run k1.c evs, clock := k1.clock + dt }
     k2.c.broken = true ∧ ∀ r', getCaller k2.c.callers r' = some .waiting → r' ∈ k2.c.permits := by
@@ -592,10 +674,10 @@ theorem keepalive_stall_breaks (k : KaSt) (h : Inv k.c) (hp : k.pending = none)
     have hinv : Inv (run k1.c evs) := by
       show Inv (run (kaTurn k).c evs)
       rw [hc]; exact (h.step _).run evs
-    have := keepalive_no_response_breaks { k1 with c := run k1.c evs, clock := k1.clock + dt } hinv
+    have := keepalive_silence_breaks { k1 with c := run k1.c evs, clock := k1.clock + dt } hinv
       k.c.nextReq (k.clock + k.timeout) hpend
       (by show (kaTurn k).clock + dt ≥ k.clock + k.timeout; rw [hclk]; omega) hnr
-    exact ⟨this.1, this.2.2⟩
+    exact this
 
 /-- non-vacuity of the hint arm: long before the tick is due a hint makes the keepaliver probe at once and re-bases
 the schedule; the stalled peer is then detected `timeout` later. -/
